@@ -138,10 +138,25 @@ for j, (s, c) in enumerate(zip(self._shifts, self._coeffs)):
     self._thetaSpline.eval_vector(thetaVals[i, j, :], tmp)
     der[(i - s) % self._nz, :] += c * tmp
 """) is not None
-    chk.ob("F7-gradient-formula", lp, "der[(i - s_j) % nz] += c_j * S_i(thetaVals[i, j])", ok,
-           "der[k] = sum_j c_j * (theta-spline of row k + s_j)(theta shifted along the field line by s_j cells): shift, "
-           "coefficient and angle column carry the same j" if ok else "accumulation statement changed", file=U.ADV,
-           func=f"{CLS}.parallel_gradient")
+    bad = None
+    if not ok:
+        from ..core import same_expr as _same
+        inner = [n for n in ast.walk(lp) if isinstance(n, ast.For) and n is not lp]
+        acc = [n for n in ast.walk(lp) if isinstance(n, ast.AugAssign) and isinstance(n.target, ast.Subscript) and src(n.target.value) == "der"]
+        if len(inner) == 1 and len(acc) == 1 and _same(inner[0].iter, "enumerate(zip(self._shifts, self._coeffs))") \
+                and isinstance(acc[0].target.slice, ast.Tuple):
+            row = acc[0].target.slice.elts[0]
+            core_row = row.left if isinstance(row, ast.BinOp) and isinstance(row.op, ast.Mod) else row
+            if not isinstance(acc[0].op, ast.Add):
+                bad = f"`{src(acc[0])}` does not add the stencil contribution"
+            elif not _same(core_row, "i - s"):
+                bad = (f"the contribution of source row i with shift s is accumulated into row `{src(row)}`, not row i - s: the finite "
+                       "difference is taken along the wrong direction / with the wrong pairing of row and weight")
+            elif not _same(acc[0].value, "c * tmp"):
+                bad = f"the accumulated value `{src(acc[0].value)}` is not (weight of the same stencil entry) x (interpolated row)"
+    chk.pat("F7-gradient-formula", lp, "der[(i - s_j) % nz] += c_j * S_i(thetaVals[i, j])", ok,
+            "der[k] = sum_j c_j * (theta-spline of row k + s_j)(theta shifted along the field line by s_j cells): shift, "
+            "coefficient and angle column carry the same j", bad, file=U.ADV, func=f"{CLS}.parallel_gradient")
     pre = src(fn).replace(" ", "").replace("\n", ";")
     ok0 = "der[:]=0" in pre and pre.index("der[:]=0") < pre.index("foriinrange")
     chk.ob("F7-gradient-formula", fn, "der[:] = 0 before accumulation", ok0, "the result array is cleared before the scatter-add"
